@@ -28,6 +28,17 @@ library by the harness, listed as known findings):
 -/
 namespace PM.Forest
 
+/-! ## tables -/
+
+/-- The variant types the validators accept are EXACTLY the documented set (both inclusions; `decide` on the table regenerated
+from the source), and the pseudo-type `'self'` of `get_variants` is not one of them. -/
+theorem C11_types_table :
+    (∀ t, t ∈ Gen.VARIANT_TYPES ↔ t ∈ ["variant".toList, "optional".toList, "addon".toList, "layered-product".toList])
+    ∧ selfT ∉ Gen.VARIANT_TYPES := by
+  refine ⟨?_, selfT_not_type⟩
+  have h : Gen.VARIANT_TYPES = ["variant".toList, "optional".toList, "addon".toList, "layered-product".toList] := by decide
+  intro t; rw [h]
+
 /-! ## add -/
 
 /-- A refused `add` – whatever the cause: validation, ancestor check, recursion limit, duplicate key – returns the WHOLE
